@@ -3,21 +3,15 @@
    Model  PtrModel.v  json_pointer.c as written;   Spec  PtrSpec.v  RFC 6901 from the RFC.
    Node identity = location (list of steps from the root; inl member-name | inr index).
 
-   Three of the property's claims do NOT hold for the current code at full strength.  Their
-   full statements are kept below as [C12_*_full_strength_REFUTED] (the negation is what is
-   proved, each with computed witnesses), next to the [_partial] theorem that holds for all
-   trees and all pointer strings inside a decidable guard.  The guards name exactly the
-   recorded defect sites:
-     get_guard   no step of the walk is: an array and the empty token while element 0 exists and
-                 is not null | an array whose element at the (valid) last token is JSON null | an
-                 object, a token with a '~' not followed by 0/1, and a member of that name;
-                 plus the representation bound: arrays on the way are no longer than SIZE_MAX
-     set_guard   the same for the tokens before the last (null elements there are harmless);
-                 the last token is not empty when the parent is an array and contains no '~'
-                 when the parent is an object
-     stg_guard   the value is not JSON null when the parent is an array; the last token is its
-                 own unescaping when the parent is an object *)
-From Coq Require Import String.    (* only for the literals of the witnesses: bs "…" *)
+   All statements are at full strength.  The four deviations of the original code (JSON null
+   array element not a target; empty token taken for index 0; last token of set not
+   unescaped; '~' escapes unchecked) were repaired in /repo (known_findings.json, status
+   fixed); their former witnesses are kept below as examples of the repaired behaviour.
+
+   The only side condition is the representation bound of the C array ([get_repr] /
+   [set_repr]: the arrays the walk passes are no longer than SIZE_MAX, which every json-c
+   array satisfies — its length is a size_t, and an index token is saturated there). *)
+From Coq Require Import String.    (* only for the literals of the examples: bs "…" *)
 From JC Require Import Base Value PtrSpec PtrModel PtrProofs.
 Local Open Scope Z_scope.
 
@@ -26,47 +20,23 @@ Theorem C12_unescape_two_pass_eq_single : forall s : list byte, unescape_in_plac
 Proof. exact unescape_two_pass_eq_single. Qed.
 Print Assumptions C12_unescape_two_pass_eq_single.
 
-(* ---- lookup *)
-(* full strength: for every tree (not the NULL pointer: json_pointer_get's documented domain)
-   and every pointer string, lookup = RFC 6901 evaluation, else ENOENT / EINVAL *)
-Theorem C12_get_conforms_full_strength_REFUTED :
-  ~ (forall t p, t <> JNull ->
-     match ptr_get t p with
-     | GOk path n => spec_get t p = Some (path, n)
-     | GErr e => spec_get t p = None /\ (e = ENOENT \/ e = EINVAL)
-     end).
-Proof. exact get_conforms_refuted. Qed.
-Print Assumptions C12_get_conforms_full_strength_REFUTED.
+(* is_valid_escaping (one byte at a time) = the RFC's reference-token syntax *)
+Theorem C12_is_valid_escaping_ok : forall s : list byte, is_valid_escaping s = escapes_ok s.
+Proof. exact is_valid_escaping_ok. Qed.
+Print Assumptions C12_is_valid_escaping_ok.
 
-Theorem C12_get_conforms_partial : forall t p,
-  t <> JNull -> get_guard t p = true ->
+(* ---- lookup: for every tree (not the NULL pointer: json_pointer_get's documented domain) and
+   every pointer string, lookup = RFC 6901 evaluation (same location, same node), else
+   ENOENT / EINVAL *)
+Theorem C12_get_conforms : forall t p,
+  t <> JNull -> get_repr t p = true ->
   match ptr_get t p with
   | GOk path n => spec_get t p = Some (path, n)
   | GErr e => spec_get t p = None /\ (e = ENOENT \/ e = EINVAL)
   end.
-Proof. exact get_conforms_partial. Qed.
-Print Assumptions C12_get_conforms_partial.
+Proof. exact get_conforms. Qed.
+Print Assumptions C12_get_conforms.
 
-Theorem C12_get_null_elem_refuted :
-  exists t p, t <> JNull /\ get_guard t p = false /\
-    spec_get t p = Some ([inl (bs "a"); inr 0], JNull) /\ ptr_get t p = GErr ENOENT.
-Proof. exact get_null_elem_refuted. Qed.
-Print Assumptions C12_get_null_elem_refuted.
-
-Theorem C12_get_empty_index_refuted :
-  exists t p, t <> JNull /\ get_guard t p = false /\
-    spec_get t p = None /\ ptr_get t p = GOk [inl (bs "a"); inr 0] (JInt 7).
-Proof. exact get_empty_index_refuted. Qed.
-Print Assumptions C12_get_empty_index_refuted.
-
-Theorem C12_get_invalid_escape_refuted :
-  exists t p, t <> JNull /\ get_guard t p = false /\
-    spec_get t p = None /\ ptr_get t p = GOk [inl (bs "~2")] (JInt 1).
-Proof. exact get_invalid_escape_refuted. Qed.
-Print Assumptions C12_get_invalid_escape_refuted.
-
-(* unguarded: the node returned is the node at the reported location; errors are
-   not-found / invalid-argument; a lookup (and a failed set) leaves the tree as it was *)
 Theorem C12_get_returns_node_at_path : forall t p path n,
   ptr_get t p = GOk path n -> node_at t path = Some n.
 Proof. exact get_returns_node_at_path. Qed.
@@ -76,6 +46,16 @@ Theorem C12_get_fails_enoent_einval : forall t p e, ptr_get t p = GErr e -> e = 
 Proof. exact get_fails_enoent_einval. Qed.
 Print Assumptions C12_get_fails_enoent_einval.
 
+(* json_pointer_get is json_pointer_get_internal (used by json_patch.c) without the parent part *)
+Theorem C12_get_internal_get : forall t p,
+  match ptr_get_internal t p with
+  | GIOk r => ptr_get t p = GOk (r_path r) (r_obj r)
+  | GIErr e => ptr_get t p = GErr e
+  end.
+Proof. exact get_internal_get. Qed.
+Print Assumptions C12_get_internal_get.
+
+(* a lookup, and a failed set, leave the tree as it was *)
 Theorem C12_get_no_side_effect : forall al t o t' obs,
   ptr_step al t o = (t', obs) ->
   match o, obs with
@@ -86,50 +66,20 @@ Theorem C12_get_no_side_effect : forall al t o t' obs,
 Proof. exact get_no_side_effect. Qed.
 Print Assumptions C12_get_no_side_effect.
 
-(* ---- set *)
-(* full strength: set = RFC placement (member named by the unescaped last token, array index,
-   append for "-"); besides that it may only fail for lack of room in an array *)
-Theorem C12_set_places_exactly_full_strength_REFUTED :
-  ~ (forall al t p v,
-     match ptr_set al t p v with
-     | SOk t' => spec_set t p v = Some t'
-     | SErr e => (spec_set t p v = None /\ (e = ENOENT \/ e = EINVAL)) \/ no_room al e
-     end).
-Proof. exact set_places_exactly_refuted. Qed.
-Print Assumptions C12_set_places_exactly_full_strength_REFUTED.
-
-Theorem C12_set_places_exactly_partial : forall al t p v,
-  set_guard t p = true ->
+(* ---- set = RFC placement (member named by the unescaped last token, array index, append for
+   "-"); besides the RFC's own failures it may only fail for lack of room in an array *)
+Theorem C12_set_places_exactly : forall al t p v,
+  set_repr t p = true ->
   match ptr_set al t p v with
   | SOk t' => spec_set t p v = Some t'
   | SErr e => (spec_set t p v = None /\ (e = ENOENT \/ e = EINVAL)) \/ no_room al e
   end.
-Proof. exact set_places_exactly_partial. Qed.
-Print Assumptions C12_set_places_exactly_partial.
+Proof. exact set_places_exactly. Qed.
+Print Assumptions C12_set_places_exactly.
 
-Theorem C12_set_escaped_last_refuted :
-  exists t p v t', set_guard t p = false /\ stg_guard t p v = false /\
-    ptr_set room t p v = SOk t' /\ t' = JObj [(bs "x~1y", v)] /\
-    spec_set t p v = Some (JObj [(bs "x/y", v)]) /\
-    ptr_get t' p = GErr ENOENT.
-Proof. exact set_escaped_last_refuted. Qed.
-Print Assumptions C12_set_escaped_last_refuted.
-
-Theorem C12_set_empty_index_refuted :
-  exists t p v t', set_guard t p = false /\
-    ptr_set room t p v = SOk t' /\ t' = JObj [(bs "a", JArr [v])] /\ spec_set t p v = None.
-Proof. exact set_empty_index_refuted. Qed.
-Print Assumptions C12_set_empty_index_refuted.
-
-Theorem C12_set_invalid_escape_refuted :
-  exists t p v t', set_guard t p = false /\
-    ptr_set room t p v = SOk t' /\ t' = JObj [(bs "b~", v)] /\ spec_set t p v = None.
-Proof. exact set_invalid_escape_refuted. Qed.
-Print Assumptions C12_set_invalid_escape_refuted.
-
-(* set changes nothing else — full strength, no guard: the value sits at the location the code
-   computed, and every location neither above nor below it holds what it held before; the
-   only new locations are the JSON null padding of an array extended up to the index *)
+(* set changes nothing else: the value sits at the location the code computed, and every
+   location neither above nor below it holds what it held before; the only new locations are
+   the JSON null padding of an array extended up to the index *)
 Theorem C12_set_frame : forall al t p v t',
   ptr_set al t p v = SOk t' ->
   exists site, set_loc t p = Some site /\ node_at t' site = Some v /\
@@ -139,27 +89,14 @@ Theorem C12_set_frame : forall al t p v t',
 Proof. exact set_frame. Qed.
 Print Assumptions C12_set_frame.
 
-(* a following lookup of the same pointer returns the value just set.  Full strength (the
-   "-" token appends and is by RFC 6901 never a lookup target; the tree handed to get must not
-   be the NULL pointer): *)
-Theorem C12_set_then_get_full_strength_REFUTED :
-  ~ (forall al t p v t',
-     ptr_set al t p v = SOk t' -> t' <> JNull -> is_append_site t p = false ->
-     exists path, ptr_get t' p = GOk path v).
-Proof. exact set_then_get_refuted. Qed.
-Print Assumptions C12_set_then_get_full_strength_REFUTED.
-
-Theorem C12_set_then_get_partial : forall al t p v t',
-  ptr_set al t p v = SOk t' -> t' <> JNull -> is_append_site t p = false -> stg_guard t p v = true ->
+(* a following lookup of the same pointer returns the value just set (the "-" token appends
+   and is by RFC 6901 never a lookup target; the tree handed to get must not be the NULL
+   pointer, which only set("", null) produces) *)
+Theorem C12_set_then_get : forall al t p v t',
+  ptr_set al t p v = SOk t' -> t' <> JNull -> is_append_site t p = false ->
   exists path, ptr_get t' p = GOk path v /\ node_at t' path = Some v.
-Proof. exact set_then_get_partial. Qed.
-Print Assumptions C12_set_then_get_partial.
-
-Theorem C12_set_then_get_null_refuted :
-  exists t p v t', stg_guard t p v = false /\ is_append_site t p = false /\
-    ptr_set room t p v = SOk t' /\ t' = JArr [JNull] /\ ptr_get t' p = GErr ENOENT.
-Proof. exact set_then_get_null_refuted. Qed.
-Print Assumptions C12_set_then_get_null_refuted.
+Proof. exact set_then_get. Qed.
+Print Assumptions C12_set_then_get.
 
 (* ---- printf-style variants: the plain functions on the formatted string, for every
    formatting oracle *)
@@ -173,9 +110,44 @@ Theorem C12_setf_as_plain : forall (fmt args : Type) (vasprintf : fmt -> args ->
 Proof. exact setf_as_plain. Qed.
 Print Assumptions C12_setf_as_plain.
 
-(* ---- non-vacuity: the RFC's own example document and pointers lie inside every guard and
-   resolve; a guarded set with an escaped inner token and an index beyond the end; the index
-   edge cases (saturation / ERANGE, leading zero, "-", index = length, no leading '/') *)
+(* ---- non-vacuity.  First the four former defect witnesses, now conforming. *)
+Theorem C12_example_null_element_is_target :
+  let t := JObj [(bs "a", JArr [JNull])] in
+  get_repr t (bs "/a/0") = true /\
+  ptr_get t (bs "/a/0") = GOk [inl (bs "a"); inr 0] JNull /\
+  spec_get t (bs "/a/0") = Some ([inl (bs "a"); inr 0], JNull) /\
+  ptr_set room (JArr [JInt 1]) (bs "/0") JNull = SOk (JArr [JNull]) /\
+  ptr_get (JArr [JNull]) (bs "/0") = GOk [inr 0] JNull.
+Proof. exact null_element_is_target. Qed.
+Print Assumptions C12_example_null_element_is_target.
+
+Theorem C12_example_empty_token_is_no_index :
+  let t := JObj [(bs "a", JArr [JInt 7])] in
+  ptr_get t (bs "/a/") = GErr EINVAL /\ spec_get t (bs "/a/") = None /\
+  ptr_set room t (bs "/a/") (JInt 9) = SErr EINVAL /\ spec_set t (bs "/a/") (JInt 9) = None /\
+  ptr_set room (JObj []) (bs "/") (JInt 9) = SOk (JObj [(bs "", JInt 9)]).
+Proof. exact empty_token_is_no_index. Qed.
+Print Assumptions C12_example_empty_token_is_no_index.
+
+Theorem C12_example_set_unescapes_last_token :
+  ptr_set room (JObj []) (bs "/x~1y") (JInt 1) = SOk (JObj [(bs "x/y", JInt 1)]) /\
+  spec_set (JObj []) (bs "/x~1y") (JInt 1) = Some (JObj [(bs "x/y", JInt 1)]) /\
+  ptr_get (JObj [(bs "x/y", JInt 1)]) (bs "/x~1y") = GOk [inl (bs "x/y")] (JInt 1) /\
+  ptr_set room (JObj [(bs "m~n", JInt 8)]) (bs "/m~0n") (JInt 9) = SOk (JObj [(bs "m~n", JInt 9)]).
+Proof. exact set_unescapes_last_token. Qed.
+Print Assumptions C12_example_set_unescapes_last_token.
+
+Theorem C12_example_invalid_escape_is_rejected :
+  let t := JObj [(bs "~2", JInt 1)] in
+  ptr_get t (bs "/~2") = GErr EINVAL /\ spec_get t (bs "/~2") = None /\
+  ptr_get t (bs "/~02") = GOk [inl (bs "~2")] (JInt 1) /\
+  ptr_set room (JObj []) (bs "/b~") (JInt 5) = SErr EINVAL /\ spec_set (JObj []) (bs "/b~") (JInt 5) = None.
+Proof. exact invalid_escape_is_rejected. Qed.
+Print Assumptions C12_example_invalid_escape_is_rejected.
+
+(* the RFC's own example document and its twelve pointers resolve, model = spec; a set with an
+   escaped inner token and an index beyond the end; the index edge cases (saturation /
+   ERANGE, leading zero, "-", index = length, no leading '/') *)
 Theorem C12_nonvacuous_rfc_examples : forallb rfc_case_ok rfc_cases = true.
 Proof. exact rfc_examples_hold. Qed.
 Print Assumptions C12_nonvacuous_rfc_examples.
@@ -183,7 +155,7 @@ Print Assumptions C12_nonvacuous_rfc_examples.
 Theorem C12_nonvacuous_set :
   let t := JObj [(bs "a/b", JObj [(bs "l", JArr [JInt 0])])] in
   let p := bs "/a~1b/l/3" in
-  set_guard t p = true /\ stg_guard t p (JInt 7) = true /\ is_append_site t p = false /\
+  set_repr t p = true /\ is_append_site t p = false /\
   ptr_set room t p (JInt 7) = SOk (JObj [(bs "a/b", JObj [(bs "l", JArr [JInt 0; JNull; JNull; JInt 7])])]) /\
   spec_set t p (JInt 7) = Some (JObj [(bs "a/b", JObj [(bs "l", JArr [JInt 0; JNull; JNull; JInt 7])])]) /\
   set_loc t p = Some [inl (bs "a/b"); inl (bs "l"); inr 3].
